@@ -368,6 +368,85 @@ func skeletonFact(fact string, props []string, rel, recv, fn string) {
 	emitStrList(fact, props, skeleton(fd.Body))
 }
 
+func emitPairList(fact string, props []string, v [][2]string) {
+	names = append(names, fact)
+	q := make([]string, len(v))
+	for i, p := range v {
+		q[i] = "(" + leanStr(p[0]) + ", " + leanStr(p[1]) + ")"
+	}
+	fmt.Fprintf(&out, "/-- serves %s -/\ndef %s : List (String × String) := [%s]\n\n", strings.Join(props, " "), fact, strings.Join(q, ", "))
+}
+
+func emitStr(fact string, props []string, v string) {
+	names = append(names, fact)
+	fmt.Fprintf(&out, "/-- serves %s -/\ndef %s : String := %s\n\n", strings.Join(props, " "), fact, leanStr(v))
+}
+
+// sfKeys: every `p.do("<endpoint>", <key expr>, …)` call in a singleflight middleware, in source order,
+// and the composite-key expression inside `do`.
+func sfKeys(suffix string, props []string, rel string) {
+	f := parse(rel)
+	if f == nil {
+		fail("sf_keys_"+suffix, props, rel+" does not parse")
+		fail("sf_endpoints_"+suffix, props, rel+" does not parse")
+		return
+	}
+	var pairs [][2]string
+	var eps []string
+	ast.Inspect(f, func(n ast.Node) bool {
+		c, ok := n.(*ast.CallExpr)
+		if !ok {
+			return true
+		}
+		se, ok := c.Fun.(*ast.SelectorExpr)
+		if !ok || se.Sel.Name != "do" || len(c.Args) != 3 {
+			return true
+		}
+		lit, ok := c.Args[0].(*ast.BasicLit)
+		if !ok {
+			return true
+		}
+		pairs = append(pairs, [2]string{unq(lit.Value), exprString(c.Args[1])})
+		eps = append(eps, unq(lit.Value))
+		return true
+	})
+	if len(pairs) == 0 {
+		fail("sf_keys_"+suffix, props, "no p.do(...) call found in "+rel)
+		fail("sf_endpoints_"+suffix, props, "no p.do(...) call found in "+rel)
+		return
+	}
+	emitPairList("sf_keys_"+suffix, props, pairs)
+	emitStrList("sf_endpoints_"+suffix, props, eps)
+}
+
+func sfDoKey(props []string, rels ...string) {
+	var found []string
+	for _, rel := range rels {
+		fd := findFunc(parse(rel), "SingleFlightProvider", "do")
+		if fd == nil {
+			fail("sf_do_key", props, "SingleFlightProvider.do not found in "+rel)
+			return
+		}
+		for _, st := range fd.Body.List {
+			as, ok := st.(*ast.AssignStmt)
+			if ok && len(as.Lhs) == 1 && exprString(as.Lhs[0]) == "compositeKey" {
+				found = append(found, exprString(as.Rhs[0]))
+			}
+		}
+	}
+	if len(found) != len(rels) {
+		fail("sf_do_key", props, "compositeKey assignment not found")
+		return
+	}
+	for _, f := range found[1:] {
+		if f != found[0] {
+			fail("sf_do_key", props, "the two middlewares build composite keys differently")
+			return
+		}
+	}
+	emitStr("sf_do_key", props, found[0])
+}
+
 func unq(s string) string {
 	u, err := strconv.Unquote(s)
 	if err != nil {
